@@ -260,7 +260,7 @@ func checkEmitWidth(c *Ctx, rule string) {
 				}
 			}
 			for _, v := range phiClosure(fs.St.Val) {
-				if call, isCall := v.(*ssa.Call); isCall && call.Call.StaticCallee() == sc && call.Call.Args[0] == sv {
+				if call, isCall := v.(*ssa.Call); isCall && call.Call.StaticCallee() == sc && (call.Call.Args[0] == sv || sameRangeElem(call.Call.Args[0], sv)) {
 					ok = true
 					continue
 				}
@@ -268,9 +268,14 @@ func checkEmitWidth(c *Ctx, rule string) {
 					ok = true
 					continue
 				}
-				// the declared width of a single-line item (C04 R04.4)
+				// the declared width of a single-line item (C04 R04.4), possibly handed to a fill helper
 				if isDeclaredWidth(v) {
 					continue
+				}
+				if par, isPar := v.(*ssa.Parameter); isPar {
+					if a := uniqueActual(c, par); a != nil && isDeclaredWidth(a) {
+						continue
+					}
 				}
 				ok, why = false, "W is computed by something other than StringCells of the same text: "+v.String()
 				break
@@ -707,4 +712,39 @@ func c18MetricsAssigned(c *Ctx, update *ssa.Function, width, height *types.Var) 
 		r.Check("R18.2", FuncName(update), fmt.Sprintf("return #%d: width and height are both assigned on every path", i+1), ret.Pos(), !isBad, why+": the metrics of the previous text survive a re-Update")
 	}
 	r.Floor("R18.2", "paths through Update examined for metric assignment", npaths, 5)
+}
+
+// uniqueActual: the value passed for parameter par at the only static call of its function in the module.
+func uniqueActual(c *Ctx, par *ssa.Parameter) ssa.Value {
+	fn := par.Parent()
+	idx := -1
+	for i, q := range fn.Params {
+		if q == par {
+			idx = i
+		}
+	}
+	var out ssa.Value
+	n := 0
+	for _, g := range c.LibFuncs() {
+		eachInstr(g, func(in ssa.Instruction) {
+			if staticCallee(in) == fn && idx >= 0 && idx < len(callCommon(in).Args) {
+				out = callCommon(in).Args[idx]
+				n++
+			}
+		})
+	}
+	if n != 1 {
+		return nil
+	}
+	return out
+}
+
+// sameRangeElem: a and b are loads of the same element (same slice, same index value).
+func sameRangeElem(a, b ssa.Value) bool {
+	if a == nil || b == nil {
+		return false
+	}
+	sa, ia := sectionOfAny(a)
+	sb, ib := sectionOfAny(b)
+	return sa != nil && sa == sb && ia == ib
 }
